@@ -675,5 +675,9 @@ pub fn check_c07(tier: Tier, seed: u64) -> i32 {
     check.run_random("splitter", cases, split_case, exec_split);
     let cases = tier.pick(1200, 60_000);
     check.run_random("end-to-end", cases, e2e_case, exec_e2e);
+    crate::fuzzglue::replay_seed_corpus(&check, "splitter");
+    if tier == Tier::Thorough {
+        crate::fuzzglue::campaign(&check, "splitter", 10_000_000, 256);
+    }
     check.finish()
 }
